@@ -39,7 +39,8 @@ Batch(ctx, name, go_opts=None, package_root="verifgen", output_opts=None)
                    (e.g. a helper package a later check needs).
     .run(jobs)     jobs: [{"id", "sid", "type" (IR object name), "docs": [json text...], "ops": [...]}] ->
                    list of result dicts, None where the driver process died.  ops subset of
-                   "std","strict","validate","equals" (default all).  Result format: drivers/go/main.go.
+                   "std","strict","validate","equals" (default: these four) and "ctor" (json.Marshal of the
+                   generated New<Type>(), only on request).  Result format: drivers/go/main.go.
                    The driver runs with TZ=UTC.
     .ok_sids(), .struct_objects(sid), .type_key(sid, objname), .schema_path(sid), .module_dir, .schemas
 
@@ -232,7 +233,7 @@ class Batch:
                     continue
                 if o["kind"] == "struct":
                     self.types[key] = "struct"
-                    cases.append('\tcase "%s":\n\t\treturn handleStruct[%s, *%s](j)' % (key, key, key))
+                    cases.append('\tcase "%s":\n\t\treturn handleStruct[%s, *%s](j, %s.New%s)' % (key, key, key, o["gopkg"], o["go"]))
                 elif o["kind"] in ("enum", "map", "array", "ref") or (o["kind"] == "scalar"):
                     # constants (`const X = ...`) are not types: the driver cannot instantiate them
                     self.types[key] = "plain"
